@@ -71,9 +71,11 @@ package dns
 //@ func (defaultReader).ReadUDP [C14 C12]
 //@   opt no-safety
 //@   exit once: same(ret0, callres("readUDP", 0)) && ret2 == callres("readUDP", 2)
+//@   callsite "readUDP" first: !called("readUDP")
 //@ func (defaultReader).ReadPacketConn [C14 C12]
 //@   opt no-safety
 //@   exit once: same(ret0, callres("readPacketConn", 0)) && ret2 == callres("readPacketConn", 2)
+//@   callsite "readPacketConn" first: !called("readPacketConn")
 //@ func (*Server).readPacketConn [C14 C12]
 //@   opt no-safety
 //@   requires srv != nil
@@ -97,3 +99,4 @@ package dns
 //@ func (defaultReader).ReadTCP [C14 C12]
 //@   opt no-safety
 //@   exit once: same(ret0, callres("readTCP", 0)) && ret1 == callres("readTCP", 1)
+//@   callsite "readTCP" first: !called("readTCP")
